@@ -201,6 +201,9 @@ def check_C11(tier):
     ties += [c for c in (infer.gen_case_chain(rng) for _ in range(8 if tier == "quick" else 100)) if c]
     ties += [c for c in (infer.gen_case_dups(rng, 6) for _ in range(16 if tier == "quick" else 200)) if c]
     tie_cases = [{"kind": "trees", "sig": c["sig"], "base": [(x["B"], x["A"]) for x in c["base"]], "qs": [(x["B"], x["A"]) for x in c["qs"][:6]], "via": "api"} for c in ties]
+    for _ in range(8 if tier == "quick" else 100):  # inheritance with exceptions over 5-6 atoms
+        c = infer.gen_case_inherit(rng, 6)
+        tie_cases.append({"kind": "trees", "sig": c["sig"], "base": c["base"], "qs": c["qs"], "via": "api"})
     rel.run_inclusions(chk, tie_cases, modes=[False], budget=60, systems=("w", "l", "c"), backends={"w": ["z3"] + all_rc2, "l": ["z3"] + all_rc2, "c": all_rc2}, ev_kind="equal")
     chk.cov["tie_cases_under_every_engine"] = len(tie_cases)
     chk.cov["backends_compared"] = backends
